@@ -199,7 +199,8 @@ def tensor_as_memoryview(tensor: torch.Tensor) -> memoryview:
         tensor = tensor.contiguous()
     if tensor.dtype == torch.bfloat16:
         return _tensor_as_memoryview_via_untyped_storage(tensor)
-    return memoryview(tensor.numpy()).cast("b")
+    # Flatten first: memoryview.cast() rejects views with zeros in shape
+    return memoryview(tensor.reshape(-1).numpy()).cast("b")
 
 
 def _tensor_as_memoryview_via_untyped_storage(tensor: torch.Tensor) -> memoryview:
@@ -256,6 +257,9 @@ def tensor_from_memoryview(
     # buffers are all read-only, intermediate tensors.
     with warnings.catch_warnings():
         warnings.simplefilter("ignore")
+        if len(mv) == 0:
+            # torch.frombuffer() rejects empty buffers
+            return torch.reshape(torch.empty(0, dtype=dtype), shape)
         return torch.reshape(torch.frombuffer(mv, dtype=dtype), shape)
 
 
